@@ -39,6 +39,10 @@ pub struct SourceCase {
     /// twin runs: delivery ops that are built (so replay indices stay aligned) but not handed to the source
     #[serde(default)]
     pub skip: Vec<usize>,
+    /// the scripted server's Bloom filter: 0 = dense seeded bytes (as always), 1 = sparse seeded bytes,
+    /// 2 = sparse seeded bytes plus this daemon's server id (the server synchronises to us)
+    #[serde(default)]
+    pub server_filter_kind: u8,
 }
 
 #[derive(Debug, Clone, Serialize, Deserialize, PartialEq)]
@@ -278,6 +282,8 @@ pub struct Step {
     pub sent: Option<usize>,
     pub delivery: Option<Delivery>,
     pub events: Vec<CtlEvent>,
+    /// the complete Bloom filter the source holds after this op (if it has one) equals the scripted server's
+    pub held_filter_is_servers: Option<bool>,
     pub obs: Obs,
     pub state: SourceState,
     pub desired: i8,
@@ -571,7 +577,22 @@ pub async fn run_case(case: &SourceCase) -> Trace {
 
     // the scripted server's bloom filter (optionally containing the daemon's id is not possible to
     // know from outside; loops through the filter are covered in C33's direct part)
-    let server_filter = seeded_bytes(SERVER_FILTER_SEED ^ case.key_seed, 512);
+    // a snapshot without sources advertises a filter that holds exactly this daemon's (random, private) server id
+    let own_filter: Vec<u8> = manager.update_used_sources(std::iter::empty()).bloom_filter.as_bytes().to_vec();
+    let mut server_filter = seeded_bytes(SERVER_FILTER_SEED ^ case.key_seed, 512);
+    if case.server_filter_kind >= 1 {
+        let m1 = seeded_bytes(SERVER_FILTER_SEED ^ case.key_seed ^ 0x5151, 512);
+        let m2 = seeded_bytes(SERVER_FILTER_SEED ^ case.key_seed ^ 0x7272, 512);
+        for i in 0..512 {
+            server_filter[i] &= m1[i] & m2[i];
+        }
+    }
+    if case.server_filter_kind >= 2 {
+        for i in 0..512 {
+            server_filter[i] |= own_filter[i];
+        }
+    }
+    let server_id_in_filter = (0..512).all(|i| own_filter[i] & !server_filter[i] == 0);
     let local_refids: Vec<u32> = local_ips.iter().map(|ip| refid_of_ip(*ip)).collect();
 
     let start = tokio::time::Instant::now();
@@ -698,6 +719,7 @@ pub async fn run_case(case: &SourceCase) -> Trace {
             sent: sent_idx,
             delivery,
             events,
+            held_filter_is_servers: nh::source::full_bloom(&source).map(|f| f == server_filter),
             obs: Obs { unanswered_polls: o.unanswered_polls, poll_interval: o.poll_interval.as_log(), nts_cookies: o.nts_cookies },
             state: nh::source::source_state(&source),
             desired: *desired.lock().unwrap(),
@@ -710,7 +732,7 @@ pub async fn run_case(case: &SourceCase) -> Trace {
         keys,
         initial_cookies,
         server_filter,
-        server_id_in_filter: false,
+        server_id_in_filter,
         local_refids,
         source_own_refid: refid_of_ip(addr.ip()),
         manager_snapshot_ok: true,
@@ -876,6 +898,7 @@ pub fn case_strategy(max_ops: usize) -> BoxedStrategy<SourceCase> {
             key_seed,
             ops,
             skip: Vec::new(),
+            server_filter_kind: 0,
         })
         .boxed()
 }
